@@ -230,6 +230,20 @@ def build_pt(spec, reuse=None, out_paxes=None):
     sizes = spec['paxes']
     base = [1 if d in spec['bcast'] else sizes[d] for d in range(len(sizes))]
     t = torch.tensor(spec['phys'], dtype=torch_dtype(spec['dtype'])).reshape(base)
+    # storage layout (a pure function of the spec, so replays and the hypothesis stream are unaffected): a third of the
+    # tensors are views into a larger storage with a non-zero storage offset (a row of a parameter matrix, say), another
+    # third additionally have non-standard strides.  The denoted tensor is the same; code that rebuilds views from
+    # (size, stride) alone and forgets storage_offset() reads the junk in front (seeded change C09-9).
+    import zlib
+    layout = zlib.crc32(repr((sizes, sorted(spec['bcast']), len(spec['vaxes']))).encode()) % 3
+    if t.numel() > 0 and layout != 2:
+        junk = torch.full((3,), 1 if t.dtype == torch.bool else 77, dtype=t.dtype)
+        if layout == 1 and t.dim() >= 2:
+            tt = torch.cat([junk, t.transpose(0, t.dim() - 1).reshape(-1)])[3:].reshape(t.transpose(0, t.dim() - 1).shape)
+            t = tt.transpose(0, t.dim() - 1)
+        else:
+            t = torch.cat([junk, t.reshape(-1)])[3:].reshape(base)
+        assert t.storage_offset() == 3
     if spec['bcast']:
         t = t.expand(sizes)
     paxes = tuple((reuse or {}).get(i) or PhysicalAxis(n) for i, n in enumerate(sizes))
